@@ -92,7 +92,7 @@ def stores(fn):
         if s.get('k') == 'CtorInit':
             continue
         for x in walk(s):
-            ap = assign_parts(x)
+            ap = assign_parts_raw(x)
             if ap:
                 yield b, j, st, ap[0], ap[1], ap[2]
             elif is_incdec(x):
